@@ -156,15 +156,17 @@ class ControllerCommandHandler:
         * If the thread is paused: the function will block until the thread is resumed or shutdown.
         """
         paused = False
-        if self._controller.is_pause():
+        while True:
             # In this implementation, `self._on_pause()` is invoked almost immediately when a pause occurs.
             # Because the `ControllerCommandHandler` primarily runs `manage_loop()`,
             # the `stop_if_pause()` method is frequently executed.
-            self.on_paused()
-            paused = True
-
-        while not self._controller.wait_for_resume(1.0):
-            pass
+            # The check is repeated after every wait slice: a pause requested between
+            # the check and the wait must still be acknowledged.
+            if not paused and self._controller.is_pause():
+                self.on_paused()
+                paused = True
+            if self._controller.wait_for_resume(1.0):
+                break
 
         if paused:
             self.on_resumed()
